@@ -248,7 +248,7 @@ def run(ctx):
                     % (inst, bad_[1]), ctx.where(QB, bad_[0]), key='PROV:%s:reply-from-shared-channel' % q.split('::{')[0])
         else:
             ctx.ok('C17.4-reply-from-own-call', inst, 'no answer taken from a channel shared between calls', ctx.where(QB))
-    ctx.anchor(n_rf >= 3, 'node functions returning the answer of a remote call (rpc_call, rpc_call_raw, rpc_call_raw_with_timeout ...)')
+    ctx.anchor(n_rf >= 1, 'node functions returning the answer of a remote call (rpc_call, rpc_call_raw, rpc_call_raw_with_timeout ...)')
 
     # ---- clause 3: CONST key format ----------------------------------------------------------
     ctx.rule('C17.3-key-format', 'the key is built with the same template from the same pid fields at the insert site and in the router', floor=2)
